@@ -89,7 +89,7 @@ def gen_operand(rng):
 
 def gen_kernel_line(rng):
     kind = rng.weighted([("fold", 30), ("merge", 14), ("trip", 16), ("flex", 12), ("order", 4), ("unwrap", 4),
-                         ("ccp", 14), ("iv", 8)])
+                         ("ccp", 14), ("iv", 8), ("sr", 8)])
     if kind == "fold":
         op, a, b = rng.pick(OPS), gen_int(rng), gen_int(rng)
         if op in ("shl", "shr") and rng.chance(2, 3):
@@ -118,6 +118,25 @@ def gen_kernel_line(rng):
         a, b = gen_operand(rng), gen_operand(rng)
         if rng.chance(1, 4): b = rng.pick(["i0", "i1", a])
         return [f"ccp {op} {a} {b}"]
+    if kind == "sr":
+        # k basic induction variables with distinct starts, guard on any of them, derived variables of any
+        k = rng.range(2, 4)
+        starts = rng.shuffle([0, 7, -3, 12, 1, -20, 100, 5, MAX - 3, MIN + 9, 65536])[:k]
+        strides = [rng.pick([1, 2, 3, 5, -1, -2, -4, 7, 65536, -30000]) for _ in range(k)]
+        gi = rng.below(k)
+        if abs(starts[gi]) > 1000: starts[gi] = rng.range(-9, 9)
+        if abs(strides[gi]) > 100: strides[gi] = rng.pick([1, -2, 3])
+        up = strides[gi] > 0
+        g = rng.pick(["lt", "le"]) if up else rng.pick(["gt", "ge"])
+        if rng.chance(1, 10): g = rng.pick(GUARDS)
+        b = starts[gi] + strides[gi] * rng.range(0, 7) + rng.pick([0, 0, 1, -1])
+        nd = rng.range(1, 4)
+        ds = []
+        for _ in range(nd):
+            ds += [rng.below(k), rng.pick([1, 2, 3, -1, -2, 4, 0, 5, 65536, MAX]), rng.pick([0, 1, -3, 4, 7, MAX, MIN])]
+        flat = " ".join(f"{a} {b_}" for a, b_ in zip(starts, strides))
+        p = f"{g} {b} {gi} {k} {flat} {nd} {' '.join(map(str, ds))} 24"
+        return [f"srloop {p}", f"srorig {p}"]
     g = rng.pick(GUARDS)
     i0, b = rng.range(-6, 6), rng.range(-10, 12)
     st = rng.range(1, 3) * (1 if g in ("lt", "le") else -1)
@@ -174,9 +193,7 @@ def judge_kernel(line, ans):
         op, a, b = t[1], int(t[2]), int(t[3])
         want = tgt(op, a, b)
         if ans == "panic":
-            if fold_would_overflow(op, a, b):
-                return ("known", "C02-F1", f"evaluate_bin_op({op}, {a}, {b}) panics")
-            return ("bad", f"evaluate_bin_op({op}, {a}, {b}) panics although the operation cannot overflow")
+            return ("bad", f"evaluate_bin_op({op}, {a}, {b}) panics (the target computes {'a trap' if want is None else want})")
         if ans == "nofold":
             return None if want is None else None   # declining to fold is always sound
         v = int(ans.split()[1])
@@ -195,10 +212,9 @@ def judge_kernel(line, ans):
         if ans == "none":
             return None
         if ans == "panic":
-            r = {"add": c1 + c2, "mul": c1 * c2}.get(outer, c2 - c1)
-            if not in_range(r):
-                return ("known", "C02-F1", f"merge_binary_expression({outer},{inner},{c1},{c2}) panics")
-            return ("bad", f"merge_binary_expression({outer},{inner},{c1},{c2}) panics without overflow")
+            if outer in CMP and inner == "add" and not in_range(c2 - c1):
+                return ("known", "C02-F3", f"merge_binary_expression({outer},{inner},{c1},{c2}) panics computing {c2} - {c1}")
+            return ("bad", f"merge_binary_expression({outer},{inner},{c1},{c2}) panics")
         _, op, c = ans.split(); c = int(c)
         for x in BOUNDARY + [c2 - c1, c2 - c1 - 1, c2 - c1 + 1, MAX - c1, MAX - c1 + 1, MIN - c1, MIN - c1 - 1]:
             if not in_range(x):
@@ -220,9 +236,7 @@ def judge_kernel(line, ans):
         ni0, nb = (i0, b) if g == "lt" else (i0, b + 1) if g == "le" else (-i0, -b) if g == "gt" else (-i0, -(b - 1))
         ovf = ovf or (ni0 < nb and not in_range(nb - ni0))
         if ans == "panic":
-            if ovf:
-                return ("known", "C02-F5", f"trip count of `i {g} {b}` from {i0} step {st} panics")
-            return ("bad", f"analyze_number_of_iterations_to_break_guard({i0},{st},{g},{b}) panics without overflow")
+            return ("bad", f"analyze_number_of_iterations_to_break_guard({i0},{st},{g},{b}) panics")
         n = int(ans.split()[1])
         i, cnt, wrapped = i0, 0, False
         cap = 3000
@@ -231,9 +245,9 @@ def judge_kernel(line, ans):
             i = w32(i + st); cnt += 1
         if cnt > cap and n > cap:
             return None        # too long to simulate
+        if cnt > cap and not in_range(i0 + st * n):
+            return ("bad", f"trip count {n} for `i {g} {b}` from {i0} step {st}: the counter wraps before the loop is left")
         if cnt != n:
-            if wrapped or (cnt > cap and not in_range(i0 + st * n)):
-                return ("known", "C02-F5", f"trip count {n} for `i {g} {b}` from {i0} step {st}: the counter wraps, real count {'>' + str(cap) if cnt > cap else cnt}")
             return ("bad", f"trip count: loop `i {g} {b}` from {i0} step {st} runs {'>' + str(cap) if cnt > cap else cnt} iterations, closed form says {n}")
         return None
     if k in ("flex", "order", "unwrap"):
@@ -251,8 +265,6 @@ def judge_kernel(line, ans):
     if k == "ccp":
         op, e1, e2 = t[1], parse_e(t[2]), parse_e(t[3])
         if ans == "panic":
-            if e1[0] == "i" and e2[0] == "i" and fold_would_overflow(op, e1[1], e2[1]):
-                return ("known", "C02-F1", f"CCP panics folding {e1[1]} {op} {e2[1]}")
             return ("bad", f"CCP panics on {line}")
         a = ans.split()
         for rho in valuations(t):
@@ -274,8 +286,6 @@ def judge_iv(line_opt, ans_opt, ans_orig):
     t = line_opt.split()
     g, i0, st, b, m, c = t[1], *map(int, t[2:7])
     if ans_opt == "panic":
-        if not in_range(st * m):
-            return ("known", "C02-F1", f"loop optimisation panics multiplying step {st} by multiplier {m}")
         return ("bad", f"loop optimisation panics on {line_opt}")
     if "fuel" in (ans_opt, ans_orig):
         if ans_opt == ans_orig:
@@ -286,10 +296,31 @@ def judge_iv(line_opt, ans_opt, ans_orig):
         return ("bad", f"loop termination changed: original `{ans_orig}` optimised `{ans_opt}` for {line_opt}")
     if ans_opt != ans_orig:
         single = (c == 0 or m == 1)
-        if single and (g != "lt" or m <= 0):
+        wraps = any(not in_range(m * x + c) for x in (i0, b, i0 + 40 * st))
+        if single and (g != "lt" or m <= 0 or wraps):
             return ("known", "C02-F4", f"guard `i {g} {b}`, j = i*{m}+{c}: original `{ans_orig}`, optimised `{ans_opt}`")
         return ("bad", f"loop optimisation changes behaviour of {line_opt}: `{ans_orig}` vs `{ans_opt}`")
     return None
+
+
+def judge_sr(line_opt, ans_opt, ans_orig):
+    """srloop vs srorig answers of the implementation (strength reduction of every derived variable
+    of a loop with several basic induction variables must not change the printed trace)."""
+    if ans_opt.startswith("bad") or ans_opt == "panic":
+        return ("bad", f"loop optimisation fails on {line_opt}: {ans_opt}")
+    if ans_opt != ans_orig:
+        return ("bad", f"strength reduction changes the trace of {line_opt}: original `{ans_orig}`, optimised `{ans_opt}`")
+    return None
+
+
+def judge_pair(lines, impl, i):
+    l, a = lines[i], impl[i]
+    nxt = impl[i + 1] if i + 1 < len(impl) else "<missing>"
+    if l.startswith("ivloop "):
+        return judge_iv(l, a, nxt)
+    if l.startswith("srloop "):
+        return judge_sr(l, a, nxt)
+    return judge_kernel(l, a)
 
 
 def nontrivial_kernel(line, ans):
@@ -300,6 +331,7 @@ def nontrivial_kernel(line, ans):
     if k in ("flex", "order", "unwrap"): return ans != " ".join(line.split()[1:])
     if k == "ccp": return ans.startswith("bind") or ans != "stmt " + " ".join(line.split()[1:])
     if k == "ivloop": return ans.startswith("out ") and not ans.startswith("out - ")
+    if k == "srloop": return ans.startswith("out ") and ans != "out -"
     return False
 
 
@@ -344,6 +376,9 @@ class Gen:
         return f"{p}{self.n}"
 
     def lit(self):
+        if "C02-F1" not in self.avoid and self.rng.chance(1, 8):
+            # compile-time arithmetic wraps like the target since the F1 fix: extreme literals are fair game
+            return str(self.rng.pick([MAX, MIN + 1, 65536, -65536, 46341, 1 << 30, MAX - 1, 40, -33]))
         return str(self.rng.pick([0, 1, 2, 3, -1, 5, 7, -4, 10, 16]))
 
     def operand(self, scope, allow_tainted=True, lit_ok=True):
@@ -371,11 +406,13 @@ class Gen:
         if op in ("shl", "shr"):
             a = self.operand(scope)
             b = r.pick(["p0", "p1"]) if r.chance(1, 3) else str(r.range(0, 31))
+            if "C02-F1" not in self.avoid and r.chance(1, 3):
+                b = self.operand(scope)
             return ["bin", n, op, a, b], True
         a = self.operand(scope)
         b = self.operand(scope)
         if op in ("div", "mod"):
-            if in_loop_variant is not None:
+            if in_loop_variant is not None and "C02-F6" in self.avoid:
                 b = r.pick(in_loop_variant)          # divisor varies with the loop: never hoisted
             tries = 0
             while (a == b or b.lstrip("-").isdigit() and int(b) in (0,)) and tries < 8:
@@ -407,12 +444,21 @@ class Gen:
                 out.append(["call", "print", [self.operand(scope)], "_"])
             elif k == "call":
                 args = [self.operand(scope, allow_tainted=False) for _ in range(2)]
+                if args[0] == args[1] and "C02-F2" in self.avoid:
+                    args[1] = self.lit()         # f(x, x) inlines to x / x
                 n_ = self.fresh()
                 out.append(["call", f"f{r.range(1, self.helpers)}", args, n_]); scope.append((n_, True))
             elif k == "if":
                 cond, scope = self.cond(scope, out)
                 s1, sc1 = self.block(scope, depth + 1, r.range(0, 3), variant, allow_call, no_div)
-                s2, sc2 = self.block(scope, depth + 1, r.range(0, 3), variant, allow_call, no_div=True)
+                s2, sc2 = self.block(scope, depth + 1, r.range(0, 3), variant, allow_call, no_div=(no_div or "C02-F7" in self.avoid))
+                if "C02-F7" not in self.avoid and r.chance(1, 4):
+                    # the same possibly-trapping division in both branches, after an effect in each
+                    a_, b_ = self.operand(scope), self.operand(scope)
+                    if a_ != b_:
+                        o_ = r.pick(["div", "mod"])
+                        s1 = [["call", "print", [self.lit()], "_"], ["bin", self.fresh(), o_, a_, b_]] + s1
+                        s2 = [["call", "print", [self.lit()], "_"], ["bin", self.fresh(), o_, a_, b_]] + s2
                 fas = []
                 for _ in range(r.range(0, 2)):
                     n_ = self.fresh("f")
@@ -452,6 +498,10 @@ class Gen:
             i0e = r.pick(["p0", "p1"])
         elif r.chance(1, 5):
             be = r.pick(["p0", "p1"])
+        if kind == "empty" and "C02-F5" not in self.avoid and r.chance(1, 4):
+            far = r.pick([MAX, MAX - 1, MAX - 7]) if up else r.pick([MIN, MIN + 1, MIN + 6])
+            i0e = str(far - r.range(0, 9) * step)
+            be = str(far)
         if kind == "empty":
             # algebraic optimisation candidates: nothing but the counter (and a second counter)
             lvs = [[i, i0e, ni]]
@@ -487,6 +537,8 @@ class Gen:
         body = [["bin", cc, inv, i, be], ["sif", cc, "0", [["brk", acc]]]]
         mid, sc = self.block(inner_scope, depth + 1, r.range(0, 3), variant=[i, acc], allow_call=True)
         body += mid
+        if "C02-F6" not in self.avoid and r.chance(1, 3):
+            body.append(["bin", self.fresh("q"), r.pick(["div", "mod"]), self.operand(scope), r.pick(["p0", "p1"])])
         body.append(["call", "print", [i], "_"])     # an effect that uses `i`: the counter is never eliminable
         body.append(["bin", nacc, r.pick(["add", "add", "xor", "mul", "sub"]), acc, self.operand(sc)])
         body.append(["bin", ni, "add", i, str(step)])
@@ -574,7 +626,7 @@ class Gen:
 
     def function(self, name, nparams, size):
         scope = [(f"p{k}", False) for k in range(nparams)]
-        body, sc = self.block(scope, 0, size, allow_call=(name == "f0"), no_div=(name != "f0"))
+        body, sc = self.block(scope, 0, size, allow_call=(name == "f0"), no_div=(name != "f0" and "C02-F6" in self.avoid))
         ret = self.operand(sc, lit_ok=False)
         return ["fn", name, nparams, body, ret]
 
@@ -700,8 +752,8 @@ def check_sources(ctx, cases, label):
             continue
         shown = run_harness([f"srcshow {p} {c} | | {text.encode().hex()}"])[0]
         payload = {"protocol": "srcprog", "label": label, "pass": p, "config_bits": c, "source": text, "answer": ans, "mir": shown}
-        if ans.startswith("panic") and "overflow" in ans and finding(ctx, "C02-F1"):
-            ctx.known(finding(ctx, "C02-F1"))
+        if ans.startswith("panic") and "subtract with overflow" in ans and finding(ctx, "C02-F3"):
+            ctx.known(finding(ctx, "C02-F3"))
         elif ans.startswith("diff"):
             ctx.violation(f"optimisation pass `{p}` (config {c}) changes the behaviour of MIR compiled from samlang source: {ans[:300]}", payload)
         else:
@@ -807,15 +859,15 @@ def classify_prog(pass_, fns, answer):
     """Known-finding signature over a (shrunk) failing program. Returns finding id or None."""
     stmts = [s for f in fns for s in walk(f[3])]
     defs = {s[1]: s for s in stmts if s[0] == "bin"}
-    if answer.startswith("panic") and "overflow" in answer:
-        return "C02-F1"
+    if answer.startswith("panic") and "subtract with overflow" in answer and pass_ in ("ccp", "rounds", "all"):
+        return "C02-F3"      # the comparison-merge arm still computes c2 - c1 unchecked
     m = re.match(r"diff arg=\d+ args=(\S*) before=(\S+) after=(\S+)", answer)
     if not m:
         return None
     before, after = m.group(2), m.group(3)
     b_trap, a_trap = "|trap" in before, "|trap" in after
     # F2: x/x or x%x (possibly after copy propagation): the removed trap had dividend 0 as well
-    if pass_ in ("ccp", "rounds", "all") and re.search(r"\|trap:(div0|rem0):0$", before) and not a_trap \
+    if pass_ in ("ccp", "rounds", "all") and re.search(r"\|trap:(div0|rem0):0$", before) and before.split("|")[1] != after.split("|")[1] \
             and any(s[0] == "bin" and s[2] in ("div", "mod") for s in stmts):
         return "C02-F2"
     loops = [s for s in stmts if s[0] == "while"]
@@ -831,17 +883,6 @@ def classify_prog(pass_, fns, answer):
             body = w[2]
             inside = list(walk(body))
             lvnames = {lv[0] for lv in w[1]}
-            # F6: a division with loop-invariant operands inside a loop (directly, or in an inlined helper
-            # called with loop-invariant arguments): the optimised run traps earlier than the original
-            earlier = re.search(r"\|trap:(div0|rem0)", after) and (not b_trap or (before.split("|")[0] != after.split("|")[0]))
-            if earlier:
-                local = lvnames | {s[1] for s in inside if s[0] in ("bin", "not")} | {s[3] for s in inside if s[0] == "call"}
-                helper_div = {f[1] for f in fns if any(x[0] == "bin" and x[2] in ("div", "mod") for x in walk(f[3]))}
-                for s in inside:
-                    if s[0] == "bin" and s[2] in ("div", "mod") and s[3] not in local and s[4] not in local:
-                        return "C02-F6"
-                    if s[0] == "call" and s[1] in helper_div and all(a not in local for a in s[2]):
-                        return "C02-F6"
             # F4 / F5: counting loop whose guard is not `<` (i.e. break test not `>=`), non-positive multiplier, or bounds near the ends
             if body and body[0][0] == "bin" and body[0][2] in ORD:
                 guard = body[0]
@@ -855,34 +896,19 @@ def classify_prog(pass_, fns, answer):
                     bad_mult = d[2] == "mul" and (not mult.lstrip("-").isdigit() or int(mult) <= 0)
                     if guard[2] != "ge" or bad_mult:
                         return "C02-F4"
-                nums = [int(x) for x in [guard[4]] + [lv[1] for lv in w[1]] if x.lstrip("-").isdigit()]
-                if any(abs(v) > 2**30 for v in nums):
-                    return "C02-F5"
-    if pass_ in ("cse", "rounds", "all"):
-        for s in stmts:
-            if s[0] == "if":
-                d1 = {(x[2], x[3], x[4]) for x in s[2] if x[0] == "bin" and x[2] in ("div", "mod")}
-                d2 = {(x[2], x[3], x[4]) for x in s[3] if x[0] == "bin" and x[2] in ("div", "mod")}
-                if d1 & d2 and (b_trap or a_trap):
-                    return "C02-F7"
     return None
 
 
 # dedicated probes, one (or a few) per open finding: (finding id, pass, cfg, args, program text)
 PROBES = [
-    ("C02-F1", "ccp", 31, [(0, 0)], "fn f0 2 bin a add 2147483647 1 ret a end"),
-    ("C02-F1", "ccp", 31, [(0, 0)], "fn f0 2 bin a mod -2147483648 -1 ret a end"),
     ("C02-F2", "ccp", 31, [(0, 0), (3, 0)], "fn f0 2 bin a div p0 p0 call print 1 a _ ret a end"),
     ("C02-F2", "all", 31, [(0, 0), (3, 0)], "fn f0 2 bin a mod p0 p0 ret a end"),
     ("C02-F3", "ccp", 31, [(1, 2), (MAX, 0)], "fn f0 2 bin a add p0 1 bin b lt a 0 call print 1 b _ ret b end"),
     ("C02-F3", "all", 31, [(1, 2), (MIN, 0)], "fn f0 2 bin a sub p0 1 bin b gt a 5 ret b end"),
+    ("C02-F3", "ccp", 31, [(1, 2)], "fn f0 2 bin a add p0 1 bin b lt a -2147483648 ret b end"),
     ("C02-F4", "loop", 31, [(0, 0)], "fn f0 2 while 2 i 0 ni last 0 j { bin cc gt i 10 sif cc 0 { brk last } bin j mul i 2 bin ni add i 1 } r ret r end"),
     ("C02-F4", "all", 4, [(0, 0)], "fn f0 2 while 2 i 0 ni last 0 j { bin cc gt i 10 sif cc 0 { brk last } bin j mul i 2 bin ni add i 1 } r ret r end"),
     ("C02-F4", "loop", 31, [(0, 0)], "fn f0 2 while 2 i 0 ni last 0 j { bin cc ge i 3 sif cc 0 { brk last } call print 1 last _ bin j mul i -1 bin ni add i 1 } r ret r end"),
-    ("C02-F5", "loop", 31, [(0, 0)], "fn f0 2 while 1 i 2147483640 ni { bin cc gt i 2147483647 sif cc 0 { brk 7 } bin ni add i 1 } r ret r end"),
-    ("C02-F5", "loop", 31, [(0, 0)], "fn f0 2 while 1 i 2147483000 ni { bin cc ge i 2147483647 sif cc 0 { brk i } bin ni add i 1000 } r ret r end"),
-    ("C02-F6", "loop", 31, [(5, 0), (5, 1)], "fn f0 2 while 1 i 0 ni { bin cc ge i 0 sif cc 0 { brk i } bin q div p0 p1 call print 1 q _ bin ni add i 1 } r ret r end"),
-    ("C02-F7", "cse", 31, [(1, 0), (0, 0), (1, 2)], "fn f0 2 if p0 { call print 1 1 _ bin a div 7 p1 } { call print 1 2 _ bin b div 7 p1 } 1 f a b ret f end"),
 ]
 
 
@@ -952,10 +978,7 @@ def run_kernels(ctx, lines, label):
     for i, l in enumerate(lines):
         a = impl[i] if i < len(impl) else "<missing>"
         by_line[l] = a
-        v = judge_kernel(l, a)
-        if l.startswith("ivloop "):
-            o = by_line.get(l), impl[i + 1] if i + 1 < len(impl) else "<missing>"
-            v = judge_iv(l, a, o[1])
+        v = judge_pair(lines, impl, i)
         if v and v[0] == "bad" and nbad >= 3:
             continue
         if v:
@@ -1005,6 +1028,13 @@ def search_near(ctx, line):
             for b in toks:
                 if t[0] == "ccp" or True:
                     cands.append(f"{t[0]} {t[1]} {a} {b}")
+    elif t[0] in ("srloop", "srorig"):
+        for a0, b0 in ((0, 7), (3, -2), (5, 5)):
+            for sa, sb in ((1, 5), (2, -1)):
+                for m, c in ((3, 1), (1, 4), (2, 0), (-1, 2)):
+                    for base in (0, 1):
+                        p = f"lt {a0 + 4 * sa} 0 2 {a0} {sa} {b0} {sb} 1 {base} {m} {c} 24"
+                        cands += [f"srloop {p}", f"srorig {p}"]
     elif t[0] in ("ivloop", "ivorig"):
         for i0 in (-2, 0, 1):
             for st in (1, 2):
@@ -1017,7 +1047,7 @@ def search_near(ctx, line):
     rc, impl, err = common.run_exec(common.harness_bin("C02"), [], cands)
     for i, l in enumerate(cands):
         a = impl[i] if i < len(impl) else "<missing>"
-        v = judge_iv(l, a, impl[i + 1] if i + 1 < len(impl) else "") if l.startswith("ivloop ") else judge_kernel(l, a)
+        v = judge_pair(cands, impl, i)
         if v and v[0] == "bad":
             ctx.violation(v[1], {"protocol": "kernel", "label": "search near " + line, "line": l, "impl": a})
             return True
@@ -1102,7 +1132,7 @@ def run(ctx):
             lines += gen_kernel_line(rng)
         impl = run_harness(lines)
         for i, l in enumerate(lines):
-            v = judge_iv(l, impl[i], impl[i + 1]) if l.startswith("ivloop ") and i + 1 < len(impl) else judge_kernel(l, impl[i])
+            v = judge_pair(lines, impl, i)
             if v and v[0] == "bad":
                 ctx.violation(v[1], {"protocol": "kernel", "label": "search after broken proof", "line": l, "impl": impl[i]})
                 return True
@@ -1245,10 +1275,12 @@ def replay(ctx, path):
         lines = [r["line"]]
         if lines[0].startswith("ivloop "):
             lines.append("ivorig " + lines[0][7:])
+        if lines[0].startswith("srloop "):
+            lines.append("srorig " + lines[0][7:])
         impl, model = common.run_pair("C02", lines)
         bad = False
         for i, l in enumerate(lines):
-            v = judge_iv(l, impl[i], impl[i + 1]) if l.startswith("ivloop ") else judge_kernel(l, impl[i])
+            v = judge_pair(lines, impl, i) if i + 1 < len(impl) or not l.startswith(("ivloop", "srloop")) else None
             print(f"{l:60} impl={impl[i]:30} model={model[i]}  oracle={v}")
             bad = bad or bool(v) or impl[i] != model[i]
         return 1 if bad else 0
